@@ -67,12 +67,17 @@ const l2PersistRule = " || L2 family l2-persist (scenarios appended after the on
 // scenarios of l2.go first, then the l2-persist family.
 func L2Dispatch(r *evid.Run) l2.ScenarioFunc {
 	nOld := r.Pick(L2QuickScenarios, L2ThoroughScenarios)
+	nPersist := r.Pick(L2PersistQuick, L2PersistThorough)
 	return func(seed int64, k int, res *l2.Result) {
-		if k < nOld {
+		switch {
+		case k < nOld:
 			L2Scenario(seed, k, res)
-			return
+		case k < nOld+nPersist:
+			L2PersistScenario(seed, k-nOld, res)
+		default:
+			// Family l2-stale-rewind (l2.go, planStale).
+			L2Scenario(seed, l2StaleBase+k-nOld-nPersist, res)
 		}
-		L2PersistScenario(seed, k-nOld, res)
 	}
 }
 
